@@ -818,3 +818,20 @@ def toggling_case(rng, tables):
         buf = b"".join(rand_packet(rng, ex)[0] for _ in range(rng.choice([1, 2, 3])))
         ops.append("B 0 " + hexs(buf))
     return Case("toggling-allowed", ops)
+
+
+def expiry_case(n=6000):
+    """a template sent ONCE, then thousands of packets that neither use nor refresh it, then data for
+    it: the template must still be there (no lifetime, no sweep, no count-based pruning), V9 and IPFIX"""
+    ops = ["P 0",
+           "B 0 " + hexs(v9_pkt([v9_fs(0, be(256, 2) + be(1, 2) + be(1, 2) + be(4, 2))])),
+           "B 0 " + hexs(ipfix_msg([ipfix_set(2, be(256, 2) + be(1, 2) + be(1, 2) + be(4, 2))]))]
+    other = v9_pkt([v9_fs(0, be(300, 2) + be(1, 2) + be(2, 2) + be(4, 2))])
+    ops.append("B 0 " + hexs(other))
+    ops.append("B 0 " + hexs(v9_pkt([v9_fs(300, be(7, 4))]) * n))
+    ops.append("B 0 " + hexs(v9_pkt([v9_fs(256, be(1, 4))])))
+    iother = ipfix_msg([ipfix_set(2, be(300, 2) + be(1, 2) + be(2, 2) + be(4, 2))])
+    ops.append("B 0 " + hexs(iother))
+    ops.append("B 0 " + hexs(ipfix_msg([ipfix_set(300, be(7, 4))]) * n))
+    ops.append("B 0 " + hexs(ipfix_msg([ipfix_set(256, be(1, 4))])))
+    return Case("stress:template-expiry", ops, {"oracle_only": n > 3000})
